@@ -1,50 +1,88 @@
 """C05 — tail calls run in constant space; deep recursion ends cleanly.
    (T) coq/Properties_C05.v (generator emits TAIL-CALL exactly at R7RS 3.5 tail sites; TAIL-CALL reuses the frame;
-       chains of tail calls keep the frame base for all n; stack growth arithmetic).
-   (K-inner) loop programs built by composing every tail context of R7RS 3.5 (derived forms included, i.e. through
-       the macros of init-7.scm): (a) in the real bytecode the recursive call is TAIL-CALL exactly when the surface
-       context is a tail context, (b) the CALL/TAIL-CALL sequence of every code body equals the one the extracted
-       model generator produces from the same analysed AST.
-   (K-outer) the same loops run 10^6 (quick) / 10^7 (thorough) iterations under a foreign probe of sexp_context_top:
-       depth at the first and at a late iteration must be equal; non-tail recursion of depth 1 .. beyond the maximum
-       gives the value or the out-of-stack error and leaves the context usable; long argument lists applied deep in
-       a recursion (stack growth by more than doubling) run under ASan with poisoned free heap chunks."""
+       chains of tail calls keep the frame base for all n; stack growth arithmetic; deep recursion by depth).
+   (K-inner) loop programs = spine of R7RS 3.5 tail contexts (derived forms included, i.e. through the macros of
+       init-7.scm) around the recursive call, with every AST constructor in the SIBLING positions (other branch, earlier
+       clause / sequence element, test, operand, operator): (a) in the real bytecode the recursive call is TAIL-CALL
+       exactly when the surface context is a tail context, (b) the CALL/TAIL-CALL sequence of every code body equals the
+       one the extracted model generator produces from the same analysed AST; (b) also over random typed programs
+       (props/C03.py Gen).
+   (K-outer) every loop runs under a foreign probe of sexp_context_top (depth at the first and at a late iteration must
+       be equal), a subset and every suspicious one for 10^6 (quick) / 10^7 (thorough) iterations; non-tail recursion
+       at depths sampled over the whole range (around every doubling boundary, between max/2 and max, around the
+       maximum, beyond) must give exactly the outcome and the stack length of the extracted model [deep_outcome];
+       the context must stay usable; long argument lists applied deep in a recursion (growth by more than doubling)
+       run under ASan with poisoned free heap chunks."""
 import os, subprocess, re
 from vlib import build as B
 from props import C03 as K
 
-X = "@X@"
+X = "@X@"      # the recursive call
+S = "@S@"      # sibling that is never executed (any value)
+E = "@E@"      # sibling executed on every iteration, value ignored
+T = "@T@"      # executed sibling whose value is true
+F = "@F@"      # executed sibling whose value is #f
+SLOTS = (S, E, T, F)
 
 
-def fill(t, x):
-    if t == X:
-        return x
+def fill(t, m):
+    if isinstance(t, str) and t in m:
+        return m[t]
     if isinstance(t, list):
-        return [fill(y, x) for y in t]
+        return [fill(y, m) for y in t]
     return t
 
 
-# (name, is a tail context by R7RS 3.5, template); inside the template i > 0 holds
+def slots_of(t, acc=None):
+    acc = set() if acc is None else acc
+    if isinstance(t, str) and t in SLOTS:
+        acc.add(t)
+    elif isinstance(t, list):
+        for y in t:
+            slots_of(y, acc)
+    return acc
+
+
+# (name, is a tail context by R7RS 3.5, template).  Inside the template i > 0 holds.  The sibling slots are filled
+# with one of SIBLINGS; with the default sibling the templates are the contexts of the first version of this check.
 CONTEXTS = [
-    ("if-else", True, ["if", ["<", "i", 0], 0, X]),
-    ("if-then", True, ["if", [">", "i", 0], X, 0]),
-    ("cond-clause", True, ["cond", [["<", "i", 0], 0], [[">", "i", 0], X], ["else", 0]]),
-    ("cond-else", True, ["cond", [["<", "i", 0], 0], ["else", X]]),
-    ("case-clause", True, ["case", ["if", [">", "i", 0], 1, 2], [[1], X], ["else", 0]]),
-    ("case-else", True, ["case", 5, [[1, 2], 0], ["else", X]]),
-    ("and-last", True, ["and", True, [">", "i", 0], X]),
-    ("or-last", True, ["or", False, ["<", "i", 0], X]),
-    ("when-last", True, ["when", [">", "i", 0], 1, X]),
-    ("unless-last", True, ["unless", ["<", "i", 0], 1, X]),
-    ("let-body", True, ["let", [["t", 1]], X]),
-    ("let*-body", True, ["let*", [["t", 1], ["u", "t"]], X]),
-    ("letrec-body", True, ["letrec", [["t", ["lambda", [], 1]]], X]),
-    ("letrec*-body", True, ["letrec*", [["t", 1], ["u", ["lambda", [], "t"]]], X]),
-    ("named-let-exit", True, ["let", "lp2", [["k", 0]], ["if", ["<", "k", 1], ["lp2", ["+", "k", 1]], X]]),
-    ("begin-last", True, ["begin", 1, X]),
-    ("lambda-body", True, [["lambda", ["t"], X], 1]),
-    ("internal-define-body", True, [["lambda", [], ["define", "t", 1], X]]),
-    ("do-result", True, ["do", [["k", 0, ["+", "k", 1]]], [[">", "k", 0], X]]),
+    ("if-else", True, ["if", ["<", "i", 0], S, X]),
+    ("if-then", True, ["if", [">", "i", 0], X, S]),
+    ("if-test-then", True, ["if", T, X, 0]),
+    ("if-test-else", True, ["if", F, 0, X]),
+    ("if-nested-then", True, ["if", ["<", "i", 0], ["if", ["<", "i", 1], S, 0], X]),
+    ("if-nested-else", True, ["if", ["<", "i", 0], 0, ["if", ["<", "i", 0], S, X]]),
+    ("if-one-armed", True, ["begin", ["if", ["<", "i", 0], S], X]),
+    ("cond-clause", True, ["cond", [["<", "i", 0], S], [[">", "i", 0], X], ["else", S]]),
+    ("cond-else", True, ["cond", [["<", "i", 0], S], ["else", X]]),
+    ("cond-seq", True, ["cond", [["<", "i", 0], 0], ["else", E, X]]),
+    ("cond-arrow", True, ["cond", [["<", "i", 0], S], [[">", "i", 0], "=>", ["lambda", ["t"], X]]]),
+    ("case-clause", True, ["case", ["if", [">", "i", 0], 1, 2], [[1], X], [[2], S], ["else", S]]),
+    ("case-clause-late", True, ["case", ["if", [">", "i", 0], 1, 2], [[2], S], [[1], E, X]]),
+    ("case-else", True, ["case", 5, [[1, 2], S], ["else", X]]),
+    ("and-last", True, ["and", True, T, X]),
+    ("and-2", True, ["and", T, X]),
+    ("or-last", True, ["or", False, F, X]),
+    ("or-2", True, ["or", F, X]),
+    ("when-last", True, ["when", [">", "i", 0], E, X]),
+    ("when-1", True, ["when", T, X]),
+    ("unless-last", True, ["unless", ["<", "i", 0], E, X]),
+    ("unless-1", True, ["unless", F, X]),
+    ("let-body", True, ["let", [["t", E]], X]),
+    ("let-body-seq", True, ["let", [["t", 1]], E, X]),
+    ("let*-body", True, ["let*", [["t", 1], ["u", E]], X]),
+    ("letrec-body", True, ["letrec", [["t", ["lambda", [], S]]], E, X]),
+    ("letrec*-body", True, ["letrec*", [["t", 1], ["u", ["lambda", [], "t"]]], E, X]),
+    ("named-let-exit", True, ["let", "lp2", [["k", 0]], ["if", ["<", "k", 1], ["lp2", ["+", "k", 1]], ["begin", E, X]]]),
+    ("begin-last", True, ["begin", E, X]),
+    ("begin-3", True, ["begin", E, 1, E, X]),
+    ("lambda-body", True, [["lambda", ["t"], E, X], 1]),
+    ("internal-define-body", True, [["lambda", [], ["define", "t", 1], E, X]]),
+    ("do-result", True, ["do", [["k", 0, ["+", "k", 1]]], [[">", "k", 0], E, X]]),
+    ("do-result-1", True, ["do", [["k", 0, ["+", "k", 1]]], [[">", "k", 0], X], E]),
+    ("operand-begin", True, X),        # the sibling sits inside an operand of the recursive call (see loop_program)
+    ("operand-if", True, X),
+    ("operator-begin", True, X),       # ... or in its operator
     # negative controls: not tail contexts
     ("operand", False, ["+", 0, X]),
     ("let-init", False, ["let", [["t", X]], "t"]),
@@ -52,40 +90,192 @@ CONTEXTS = [
     ("if-test", False, ["if", X, "acc", "acc"]),
     ("and-nonlast", False, ["and", X, "acc"]),
 ]
+CTX_SLOTS = {"operand-begin": {E}, "operand-if": {T}, "operator-begin": {E}}
 
-CALLEES = ["fixed", "rest-used", "rest-unused", "mutual", "apply"]
+# (name, expression, may be executed, value when executed: "t" true / "f" false).  One entry per AST constructor the
+# code generator knows (lit, ref local/global, set! local/global, cnd, seq, lambda, general application, opcode
+# application) and per derived form, several ending in a set! (generate_set clears the tail flag and nobody but the
+# enclosing cnd / seq / app restores it).  `None` = the recursive call itself (two tail calls side by side).
+SIBLINGS = [
+    ("lit", 0, True, "t"),
+    ("lit-false", False, True, "f"),
+    ("ref-local", "i", True, "t"),
+    ("ref-global", "g0", True, "t"),
+    ("set-global", ["set!", "g0", 1], True, "t"),
+    ("set-local", ["set!", "i", "i"], True, "t"),
+    ("opapp", ["+", "i", 1], True, "t"),
+    ("opapp-false", ["<", "i", 0], True, "f"),
+    ("app", ["ident", "i"], True, "t"),
+    ("app-false", ["ident", False], True, "f"),
+    ("apply", ["apply", "ident", ["list", "i"]], True, "t"),
+    ("lambda", ["lambda", [], "i"], True, "t"),
+    ("seq-set", ["begin", ["ident", "i"], ["set!", "g0", 1]], True, "t"),
+    ("seq-lit", ["begin", ["set!", "g0", 1], 0], True, "t"),
+    ("seq-false", ["begin", ["set!", "g0", 1], False], True, "f"),
+    ("cnd-set-then", ["if", ["<", "i", 0], ["set!", "g0", 1], 0], True, "t"),
+    ("cnd-set-else", ["if", [">", "i", 0], 0, ["set!", "g0", 2]], True, "t"),
+    ("cnd-app", ["if", ["<", "i", 0], ["ident", 1], ["ident", 2]], True, "t"),
+    ("cnd-false", ["if", ["<", "i", 0], ["set!", "g0", 1], False], True, "f"),
+    ("let-set", ["let", [["t", 1]], ["set!", "t", 2]], True, "t"),
+    ("when-set", ["when", [">", "i", 0], ["set!", "g0", 1]], True, "t"),
+    ("unless-set", ["unless", ["<", "i", 0], ["ident", 1], ["set!", "g0", 1]], True, "t"),
+    ("or-app", ["or", ["<", "i", 0], ["ident", "i"]], True, "t"),
+    ("and-set", ["and", [">", "i", 0], ["set!", "g0", 3]], True, "t"),
+    ("cond-set", ["cond", [["<", "i", 0], 1], ["else", ["set!", "g0", 4]]], True, "t"),
+    ("case-set", ["case", "i", [[0], ["set!", "g0", 1]], ["else", 0]], True, "t"),
+    ("named-let", ["let", "lp3", [["k", 0]], ["if", ["<", "k", 1], ["lp3", ["+", "k", 1]], "k"]], True, "t"),
+    ("do-set", ["do", [["k", 0, ["+", "k", 1]]], [[">", "k", 0], ["set!", "g0", "k"]]], True, "t"),
+    ("self-call", None, False, None),
+]
+DEFAULT_SIB = {S: 0, E: 1, T: [">", "i", 0], F: ["<", "i", 0]}
+
+CALLEES = ["fixed", "rest-used", "rest-unused", "mutual", "apply", "mutual3", "apply-rest", "fixed8", "mutual-arity",
+           "named-let", "internal-define", "apply8"]
+EXITS = ["value", "set", "begin-set", "opapp"]
 
 
-def loop_program(ctxs, callee, n, probe):
-    """returns (forms, names of the procedures whose recursive call is inspected)"""
-    rec = {"fixed": ["loop", ["-", "i", 1], ["+", "acc", 1]],
-           "rest-used": ["loop", ["-", "i", 1], ["+", ["car", "r"], 1]],
-           "rest-unused": ["loop", ["-", "i", 1], ["+", "acc", 1], 0, 0],
-           "mutual": ["pong", ["-", "i", 1], ["+", "acc", 1]],
-           "apply": ["apply", "loop", ["list", ["-", "i", 1], ["+", "acc", 1]]]}[callee]
+def ctx_slots(c):
+    return CTX_SLOTS.get(c[0]) or slots_of(c[2])
+
+
+def sib_map(sib, rec):
+    """slot -> expression for one sibling (None when the sibling cannot stand in that slot)"""
+    name, ex, executable, val = sib
+    if ex is None:
+        ex = rec
+    m = {S: ex}
+    if executable:
+        m[E] = ex
+        if val == "t":
+            m[T] = ex
+        if val == "f":
+            m[F] = ex
+    return m
+
+
+def compatible(c, sib):
+    if sib[1] is None and c[0] == "if-one-armed":
+        return False                    # the sibling of a one-armed if inside a begin is not in tail position
+    m = sib_map(sib, 0)
+    return all(s in m for s in ctx_slots(c))
+
+
+def loop_program(ctxs, callee, n, probe, sibs=None, exit_kind="value"):
+    """ctxs: list of contexts, outermost first; sibs: one sibling (or None = defaults) per context.
+    returns (forms, name of the global whose call is inspected)"""
+    sibs = sibs or [None] * len(ctxs)
+    nxt = ["+", ["car", "r"], 1] if callee in ("rest-used", "apply-rest") else ["+", "acc", 1]
+    for c, sb in zip(ctxs, sibs):
+        m = dict(DEFAULT_SIB)
+        if sb is not None:
+            m.update(sib_map(sb, 0))
+        if c[0] == "operand-begin":
+            nxt = ["begin", m[E], nxt]
+        elif c[0] == "operand-if":
+            nxt = ["if", m[T], nxt, 0]
+    dec = ["-", "i", 1]
+    rec = {"fixed": ["loop", dec, nxt],
+           "rest-used": ["loop", dec, nxt],
+           "rest-unused": ["loop", dec, nxt, 0, 0],
+           "mutual": ["pong", dec, nxt],
+           "mutual3": ["pong", dec, nxt],
+           "fixed8": ["loop", dec, nxt, 1, 2, 3, 4, 5, 6],
+           "mutual-arity": ["pong", dec, nxt, 7, 8, 9],
+           "named-let": ["loop", dec, nxt],
+           "internal-define": ["loop", dec, nxt],
+           "apply": ["apply", "loop", ["list", dec, nxt]],
+           "apply8": ["apply", "loop", ["list", dec, nxt, 1, 2, 3, 4, 5, 6]],
+           "apply-rest": ["apply", "loop", dec, ["list", nxt]]}[callee]
+    for c, sb in zip(ctxs, sibs):
+        if c[0] == "operator-begin":
+            m = dict(DEFAULT_SIB)
+            if sb is not None:
+                m.update(sib_map(sb, 0))
+            rec = [["begin", m[E], rec[0]]] + rec[1:]
     body = rec
-    for _, _, t in reversed(ctxs):
-        body = fill(t, body)
+    for c, sb in reversed(list(zip(ctxs, sibs))):
+        m = dict(DEFAULT_SIB)
+        if sb is not None:
+            m.update(sib_map(sb, rec))
+        m[X] = body
+        body = fill(c[2], m)
+    restp = callee in ("rest-used", "apply-rest")
     head = {"fixed": ["loop", "i", "acc"], "rest-used": ["loop", "i", ".", "r"], "rest-unused": ["loop", "i", "acc", ".", "r"],
-            "mutual": ["loop", "i", "acc"], "apply": ["loop", "i", "acc"]}[callee]
-    acc = ["car", "r"] if callee == "rest-used" else "acc"
+            "mutual": ["loop", "i", "acc"], "mutual3": ["loop", "i", "acc"], "apply": ["loop", "i", "acc"],
+            "apply-rest": ["loop", "i", ".", "r"], "fixed8": ["loop", "i", "acc", "a", "b", "c", "d", "e", "f"],
+            "apply8": ["loop", "i", "acc", "a", "b", "c", "d", "e", "f"],
+            "mutual-arity": ["loop", "i", "acc"], "named-let": ["loop", "i", "acc"], "internal-define": ["loop", "i", "acc"]}[callee]
+    acc = ["car", "r"] if restp else "acc"
     pre = [["note", "i"]] if probe else []
-    forms = []
+    forms = [["define", "g0", 0], ["define", "result", False], ["define", ["ident", "x"], "x"]]
     if probe:
         forms += [["define", "top-first", 0], ["define", "top-late", 0],
                   ["define", ["note", "i"], ["if", ["=", "i", n], ["set!", "top-first", ["verif-top"]],
                                              ["if", ["<", "i", 3], ["set!", "top-late", ["verif-top"]], False]]]]
-    if callee == "rest-used":
-        body = ["let", [["acc", ["car", "r"]]], body] if any(c[0] in ("begin-nonlast", "if-test", "and-nonlast") for c in ctxs) else body
-    forms.append(["define", head] + pre + [["if", ["=", "i", 0], acc, body]])
+    if restp and any(c[0] in ("begin-nonlast", "if-test", "and-nonlast") for c in ctxs):
+        body = ["let", [["acc", ["car", "r"]]], body]
+    ex = {"value": acc, "set": ["set!", "result", acc], "begin-set": ["begin", ["ident", 1], ["set!", "result", acc]],
+          "opapp": ["+", acc, 0]}[exit_kind]
+    loopbody = pre + [["if", ["=", "i", 0], ex, body]]
+    if callee in ("named-let", "internal-define"):
+        # the loop procedure is local: bound by a named let / an internal define of (run n)
+        if callee == "named-let":
+            forms.append(["define", ["run", "n"], ["let", "loop", [["i", "n"], ["acc", 0]]] + loopbody])
+        else:
+            forms.append(["define", ["run", "n"], ["define", head] + loopbody, ["loop", "n", 0]])
+        call = ["run", n]
+        if exit_kind in ("set", "begin-set"):
+            call = ["begin", call, "result"]
+        forms.append(["let", [["res", call]], ["cons", "res", ["-", "top-late", "top-first"]]] if probe else call)
+        return forms, None
+    forms.append(["define", head] + loopbody)
+    if callee == "mutual-arity":
+        # the partner takes more arguments than the loop: every tail call changes the size of the reused frame
+        forms.append(["define", ["pong", "i", "acc", "x", "y", "z"], ["if", ["=", "i", 0], ex, ["loop", ["-", "i", 1], ["+", "acc", 1]]]])
     if callee == "mutual":
-        forms.append(["define", ["pong", "i", "acc"], ["if", ["=", "i", 0], "acc", ["loop", ["-", "i", 1], ["+", "acc", 1]]]])
+        forms.append(["define", ["pong", "i", "acc"], ["if", ["=", "i", 0], ex, ["loop", ["-", "i", 1], ["+", "acc", 1]]]])
+    if callee == "mutual3":
+        # three procedures, the other two reach the exit through a when / a cond clause
+        forms.append(["define", ["pong", "i", "acc"], ["cond", [["=", "i", 0], ex], ["else", ["pang", ["-", "i", 1], ["+", "acc", 1]]]]])
+        forms.append(["define", ["pang", "i", "acc"], ["if", [">", "i", 0], ["loop", ["-", "i", 1], ["+", "acc", 1]], ex]])
     # same number of surplus arguments as the recursive call: with an unused rest parameter they stay in the frame
     call = ["loop", n, 0, 0, 0] if callee == "rest-unused" else ["loop", n, 0]
+    if callee in ("fixed8", "apply8"):
+        call = ["loop", n, 0, 1, 2, 3, 4, 5, 6]
+    if exit_kind in ("set", "begin-set"):
+        call = ["begin", call, "result"]
     # the loop must run before the probes are read: operands are evaluated right to left
     forms.append(["let", [["res", call]], ["cons", "res", ["-", "top-late", "top-first"]]] if probe else call)
-    target = {"mutual": "pong", "apply": "apply"}.get(callee, "loop")
+    target = {"mutual": "pong", "mutual3": "pong", "mutual-arity": "pong", "apply": "apply", "apply-rest": "apply", "apply8": "apply"}.get(callee, "loop")
     return forms, target
+
+
+NN = "@N@"
+# loops whose iteration is written by a macro of init-7.scm (do, named let) or bound locally; (name, forms, value)
+MACRO_LOOPS = [
+    ("do", [["define", ["run", "n"], ["do", [["i", "n", ["-", "i", 1]], ["acc", 0, ["+", "acc", 1]]], [["=", "i", 0], "acc"], ["note", "i"]]]], "N"),
+    ("do-no-result", [["define", ["run", "n"], ["do", [["i", "n", ["-", "i", 1]]], [["=", "i", 0]], ["note", "i"]]]], "#t"),
+    ("do-no-step", [["define", ["run", "n"], ["let", [["c", 0]], ["do", [["i", "n", ["-", "i", 1]], ["k", 7]], [["=", "i", 0], ["set!", "g0", 1], ["+", "k", "c"]],
+                                                               ["note", "i"], ["set!", "c", 1]]]]], "8"),
+    ("do-no-body", [["define", ["run", "n"], ["do", [["i", "n", ["-", "i", 1]], ["acc", 0, ["begin", ["note", "i"], ["+", "acc", 1]]]], [["=", "i", 0], "acc"]]]], "N"),
+    ("do-set-body", [["define", ["run", "n"], ["let", [["acc", 0]], ["do", [["i", "n", ["-", "i", 1]]], [["=", "i", 0], "acc"], ["note", "i"], ["set!", "acc", ["+", "acc", 1]]]]]], "N"),
+    ("named-let-nested", [["define", ["run", "n"], ["let", "outer", [["i", "n"], ["acc", 0]], ["note", "i"],
+                                                   ["if", ["=", "i", 0], "acc", ["let", "inner", [["k", 0]], ["if", ["<", "k", 1], ["inner", ["+", "k", 1]],
+                                                                                                            ["outer", ["-", "i", 1], ["+", "acc", 1]]]]]]]], "N"),
+    ("letrec-lambda", [["define", ["run", "n"], ["letrec", [["lp", ["lambda", ["i", "acc"], ["note", "i"], ["if", ["=", "i", 0], "acc", ["lp", ["-", "i", 1], ["+", "acc", 1]]]]]],
+                                                ["lp", "n", 0]]]], "N"),
+    ("named-let-in-cond", [["define", ["run", "n"], ["cond", [["<", "n", 0], ["set!", "g0", 1]],
+                                                    ["else", ["let", "lp", [["i", "n"], ["acc", 0]], ["note", "i"], ["when", [">", "i", 0], ["set!", "g0", "i"]],
+                                                              ["if", ["=", "i", 0], "acc", ["lp", ["-", "i", 1], ["+", "acc", 1]]]]]]]], "N"),
+]
+
+
+def macro_loop_program(ml, n):
+    name, forms, value = ml
+    pre = [["define", "g0", 0], ["define", "top-first", 0], ["define", "top-late", 0],
+           ["define", ["note", "i"], ["if", ["=", "i", n], ["set!", "top-first", ["verif-top"]],
+                                      ["if", ["<", "i", 3], ["set!", "top-late", ["verif-top"]], False]]]]
+    return pre + forms + [["let", [["res", ["run", n]]], ["cons", "res", ["-", "top-late", "top-first"]]]], (str(n) if value == "N" else value)
 
 
 def code_bodies(c, out):
@@ -115,12 +305,31 @@ def calls_to(bodies, target):
     return ops
 
 
+def ceil_div(a, b):
+    return -((-a) // b)
+
+
+def sq(s):
+    return s.replace("'", "'\\''")
+
+
 def run(ctx):
-    ctx.cov["rule"] = ("loop programs = composition of R7RS 3.5 tail contexts (19 tail contexts + 5 non-tail controls, nesting 1-2 "
-                       "quick / up to 3 thorough) x callee kind {fixed arity, rest used, rest unused with surplus args, mutual "
-                       "recursion, apply}; each is compiled (bytecode inspected, call sequence compared with the model generator) "
-                       "and run for N iterations with a stack-depth probe; plus non-tail recursion at depths around the stack "
-                       "maximum and long apply argument lists deep in a recursion; distinct by program text, all non-trivial")
+    ctx.cov["rule"] = ("loop programs = spine of R7RS 3.5 tail contexts (37 tail contexts incl. derived forms + 5 non-tail controls) "
+                       "x what sits in the sibling positions (29 siblings: every AST constructor and derived form, as other "
+                       "branch / earlier clause or sequence element / test / operand / operator) x callee kind {fixed arity, "
+                       "rest used, rest unused with surplus args, mutual recursion through 2 and 3 procedures, apply, apply to "
+                       "a variadic callee} x exit form; random spines of depth 2-4 with random siblings; each is compiled "
+                       "(bytecode inspected, call sequence compared with the model generator) and run with a stack-depth "
+                       "probe; random typed programs (C03 generator) for the call-sequence comparison; non-tail recursion of "
+                       "three frame shapes at depths around every doubling boundary, between max/2 and max, around and beyond "
+                       "the maximum vs the model's deep_outcome; long apply argument lists deep in a recursion; distinct by "
+                       "program text, all non-trivial")
+    if os.environ.get("C05_DEBUG"):
+        _b = ctx.broken
+        def dbg(name, reason, **kw):
+            print("BROKEN %s: %s" % (name, reason[:1200]))
+            _b(name, reason, **kw)
+        ctx.broken = dbg
     ctx.coq_obligations("Properties_C05")
     try:
         d = ctx.build("default")
@@ -137,29 +346,66 @@ def run(ctx):
     h = K.Harness(d)
     rng = ctx.rng
     tails = [c for c in CONTEXTS if c[1]]
-    combos = [[c] for c in CONTEXTS]
+    # ------------------------------------------------------------------ the programs
+    cases = []          # (contexts, siblings, callee, exit kind, family)
+    for c in CONTEXTS:                                   # every context with the default sibling x every callee
+        for callee in CALLEES:
+            cases.append(([c], None, callee, "value", "ctx"))
+    n = 0
+    for c in tails:                                      # the product: tail context x sibling (callee and exit rotate)
+        for sb in SIBLINGS:
+            if compatible(c, sb):
+                n += 1
+                cases.append(([c], [sb], CALLEES[n % len(CALLEES)], EXITS[(n // 3) % len(EXITS)], "sib"))
+    for ek in EXITS[1:]:                                 # every exit form x callee
+        for callee in CALLEES:
+            cases.append(([tails[0]], None, callee, ek, "exit"))
     pairs = [[a, b] for a in tails for b in CONTEXTS]
-    if ctx.thorough:
-        combos += pairs
-        triples = [[a, b, c] for a in tails for b in tails for c in CONTEXTS]
-        combos += [triples[i] for i in sorted(rng.sample(range(len(triples)), 600))]
-    else:
-        combos += [pairs[i] for i in sorted(rng.sample(range(len(pairs)), 40))]
-    cases = []
-    for n, cs in enumerate(combos):
-        for callee in (CALLEES if len(cs) == 1 else [CALLEES[n % len(CALLEES)]]):
-            cases.append((cs, callee))
+    npairs = 40 if not ctx.thorough else len(pairs)
+    for n, i in enumerate(sorted(rng.sample(range(len(pairs)), npairs))):
+        cases.append((pairs[i], None, CALLEES[n % len(CALLEES)], "value", "pair"))
+    nspine = 300 if not ctx.thorough else 4000
+    for n in range(nspine):                              # random spines with random siblings
+        depth = rng.choice([2, 2, 3, 4])
+        cs = [rng.choice(tails) for _ in range(depth)]
+        if rng.random() < 0.1:
+            cs[-1] = rng.choice([c for c in CONTEXTS if not c[1]])
+        sbs = [rng.choice([sb for sb in SIBLINGS if compatible(c, sb)]) for c in cs]
+        cases.append((cs, sbs, rng.choice(CALLEES), rng.choice(EXITS), "spine"))
+    seen, uniq = set(), []
+    for cs in cases:
+        k = (tuple(c[0] for c in cs[0]), tuple(s[0] for s in cs[1]) if cs[1] else None, cs[2], cs[3])
+        if k not in seen:
+            seen.add(k)
+            uniq.append(cs)
+    cases = uniq
     # ------------------------------------------------------------------ inner: bytecode
-    small = [loop_program(cs, callee, 5, False) for cs, callee in cases]
+    # non-tail controls leave by value; a sibling that calls `apply` would be mistaken for the recursive call through apply
+    cases = [(cs, sbs, {"apply": "fixed", "apply-rest": "rest-used", "apply8": "fixed8"}.get(callee, callee) if sbs and any(x[0] == "apply" for x in sbs) else callee,
+              ek if all(c[1] for c in cs) else "value", fam) for cs, sbs, callee, ek, fam in cases]
+    small = [loop_program(cs, callee, 5, False, sbs, ek) for cs, sbs, callee, ek, _ in cases]
     texts = [" ".join(K.scm(f) for f in forms) for forms, _ in small]
-    hdr, answers = h.run(["PROG " + t for t in texts])
+    nloops = len(texts)
+    # random typed programs (C03's generator): only the call-sequence comparison with the model generator
+    nrand = 300 if not ctx.thorough else 6000
+    rand_texts = []
+    for i in range(nrand):
+        g = K.Gen(rng, derived=(i % 2 == 1))
+        rand_texts.append(" ".join(K.scm(f) for f in g.program(rng.choice([2, 3, 4]))))
+    hdr, answers = h.run(["PROG " + t for t in texts + rand_texts], timeout=900)
     pair_type = hdr.get("pair-type", 6)
     names = K.Names()
     mreq, plan = [], []
-    for (cs, callee), (forms, target), text, ans in zip(cases, small, texts, answers):
-        tail = all(c[1] for c in cs)
-        key = "+".join(c[0] for c in cs) + "/" + callee
-        ent = dict(key=key, tail=tail, text=text, target=target, out=K.impl_outcome(ans), forms=[])
+    for idx, (text, ans) in enumerate(zip(texts + rand_texts, answers)):
+        if idx < nloops:
+            cs, sbs, callee, ek, fam = cases[idx]
+            tail = all(c[1] for c in cs)
+            key = "+".join(c[0] for c in cs) + "/" + callee
+            sibkey = "+".join(s[0] for s in sbs) if sbs else "default"
+            target = small[idx][1]
+        else:
+            tail, key, sibkey, target, fam, callee = None, "random/typed", "-", None, "rand", "-"
+        ent = dict(key=key, sib=sibkey, tail=tail, text=text, target=target, out=K.impl_outcome(ans), forms=[], fam=fam)
         plan.append(ent)
         for a2, b in zip([t for tag, t in ans["lines"] if tag == "A2"], [t for tag, t in ans["lines"] if tag == "B"]):
             try:
@@ -178,96 +424,141 @@ def run(ctx):
     mout = ctx.run_model(exe, mreq) if mreq else []
     replay_fmt = "echo 'PROG %s' | LD_LIBRARY_PATH=" + d + " " + d + "/embed_c03 | grep -E '^(B|V|E) '"
     bad_inner = []
-    for ent in plan:
+    nmodel = nunsupported = 0
+    for idx, ent in enumerate(plan):
         ctx.count(1, key=("inner", ent["text"]), nontrivial=True)
-        if (ent["tail"] and ent["out"] != "V 5") or not ent["out"].startswith("V "):
+        isloop = idx < nloops
+        if isloop and ((ent["tail"] and ent["out"] != "V 5") or not ent["out"].startswith("V ")):
             ctx.violation("tail:wrong-result:" + ent["key"].split("/")[1], input=ent["text"], expected="V 5", observed=ent["out"],
-                          replay=replay_fmt % ent["text"].replace("'", "'\\''"))
+                          replay=replay_fmt % sq(ent["text"]))
             continue
-        ops = []
         for f in ent["forms"]:
-            ops += calls_to(f["bodies"], ent["target"])
             if "req" in f:
+                nmodel += 1
                 ctx.cov["traces_validated_against_impl"] += 1
                 real, model = calls_string(f["bodies"]), mout[f["req"]]
-                if real != model:
+                if real != model and "model_diff" not in ent:
                     ent["model_diff"] = (real, model)
+            else:
+                nunsupported += 1
+        if not isloop:
+            if ent.get("model_diff"):
+                real, model = ent["model_diff"]
+                # decide with the SPEC: the model sequence is tail_sites (theorem tail_calls_emitted); a CALL where the
+                # SPEC has a tail site is a call in tail position that pushes a frame
+                rs, ms = re.findall(r"\((\d) (\d+)\)", real), re.findall(r"\((\d) (\d+)\)", model)
+                lost = len(rs) == len(ms) and any(a[0] == "0" and b[0] == "1" for a, b in zip(rs, ms))
+                if lost:
+                    ctx.violation("tail:call-at-tail-site:random", input=ent["text"],
+                                  expected="call sequence per code body (1 = TAIL-CALL, R7RS 3.5 tail sites by the model generator / tail_sites): " + model[:600],
+                                  observed=real[:600], replay=replay_fmt % sq(ent["text"]))
+                else:
+                    ctx.broken("correspondence:calls", "call sequence of the real bytecode differs from the model generator for %s: real %s model %s"
+                               % (ent["text"][:300], real[:300], model[:300]))
+            continue
         # the recursive call inside the loop body (the last form's own call of loop is at top level: ignore CALL/TAIL there)
         inner_ops = []
         for f in ent["forms"][:-1]:
             inner_ops += calls_to(f["bodies"], ent["target"])
         want = "TAIL-CALL" if ent["tail"] else "CALL"
-        if not inner_ops or any(o != want for o in inner_ops):
+        if ent["target"] is None:
+            # local loop procedure (named let / internal define): call-sequence comparison and depth probe only
+            if ent.get("model_diff"):
+                bad_inner.append(ent)
+        elif not inner_ops or any(o != want for o in inner_ops):
             ent["flag_diff"] = (want, inner_ops)
             bad_inner.append(ent)
         elif ent.get("model_diff"):
             bad_inner.append(ent)
+    if nmodel < 0.8 * (nmodel + nunsupported):
+        ctx.broken("correspondence:coverage", "only %d of %d compiled forms are inside the modelled fragment" % (nmodel, nmodel + nunsupported))
     # ------------------------------------------------------------------ outer: depth probe
     N = 10 ** 6 if not ctx.thorough else 10 ** 7
     nbig = 24 if not ctx.thorough else 120
-    order = list(range(len(cases)))
-    # programs whose bytecode disagreed are run first and always with the large N (targeted search)
-    order.sort(key=lambda i: (0 if plan[i] in bad_inner else 1, i))
+    NS = 3000
+    # pass 1: every loop with a small N (the probe difference is exact, so growth shows at once); the first nbig
+    # single-context programs with the large N
     lines, meta = [], []
-    for rank, i in enumerate(order):
-        cs, callee = cases[i]
+    cand = [i for i in range(nloops) if cases[i][4] == "ctx" and cases[i][0][0][1]
+            and cases[i][2] == CALLEES[CONTEXTS.index(cases[i][0][0]) % len(CALLEES)]]
+    bigset = set(rng.sample(cand, min(nbig, len(cand))))
+    for i in range(nloops):
+        cs, sbs, callee, ek, fam = cases[i]
         tail = all(c[1] for c in cs)
-        n = (N if rank < nbig or plan[i] in bad_inner else 20000) if tail else 2000
-        forms, _ = loop_program(cs, callee, n, True)
+        n = (N if i in bigset else NS) if tail else 2000
+        forms, _ = loop_program(cs, callee, n, True, sbs, ek)
         lines.append("TOP " + " ".join(K.scm(f) for f in forms))
         meta.append((i, n, tail))
-    _, answers = h.run(lines, timeout=1500)
+    mlines, mmeta = [], []
+    for mi, ml in enumerate(MACRO_LOOPS):
+        for n in ([NS, N] if (mi < 3 or ctx.thorough) else [NS]):
+            forms, value = macro_loop_program(ml, n)
+            mlines.append("TOP " + " ".join(K.scm(f) for f in forms))
+            mmeta.append((ml[0], n, value))
+    _, answers = h.run(lines + mlines, timeout=1500)
+    for (name, n, value), line, ans in zip(mmeta, mlines, answers[len(lines):]):
+        out = K.impl_outcome(ans)
+        ctx.count(1, key=("outer", line), nontrivial=True)
+        if out != "V (%s . 0)" % value:
+            ctx.violation("tail:stack-grows:macro-loop:" + name, input=line[4:], expected="V (%s . 0)  (value, depth at a late iteration minus depth at the first = 0)" % value,
+                          observed=out, replay="echo '%s' | LD_LIBRARY_PATH=%s %s/embed_c03" % (sq(line), d, d))
+    answers = answers[:len(lines)]
+    suspects = []
+    results = {}
     for (i, n, tail), line, ans in zip(meta, lines, answers):
         ent = plan[i]
         out = K.impl_outcome(ans)
         ctx.count(1, key=("outer", line), nontrivial=True)
-        replay = "echo '%s' | LD_LIBRARY_PATH=%s %s/embed_c03" % (line.replace("'", "'\\''"), d, d)
         m = re.match(r"V \((\d+) \. (-?\d+)\)$", out)
         if tail:
-            if not m or int(m.group(1)) != n or int(m.group(2)) != 0:
-                ctx.violation("tail:stack-grows:" + ent["key"].split("/")[1] + ":" + ent["key"].split("/")[0].split("+")[0],
-                              input=line[4:], expected="V (%d . 0)  (value, depth at iteration N-1 minus depth at iteration 1... = 0)" % n,
-                              observed=out, replay=replay)
-                ent["reported"] = True
+            ok = bool(m) and int(m.group(1)) == n and int(m.group(2)) == 0
+            results[i] = (n, line, out, ok)
+            if (not ok or ent in bad_inner) and n < N:
+                suspects.append(i)
         else:
             # control: the probe must see the growth of a non-tail recursion (otherwise the probe is blind)
             if not m or int(m.group(2)) <= 0:
                 ctx.broken("depth-probe", "probe did not see stack growth for non-tail loop %s: %s" % (ent["key"], out))
+    # pass 2 (targeted): suspicious programs again with the large N, so that the replay shows the loop dying
+    suspects.sort(key=lambda i: (len(cases[i][0]), i))
+    lines2 = []
+    for i in suspects[:40]:
+        cs, sbs, callee, ek, fam = cases[i]
+        forms, _ = loop_program(cs, callee, N, True, sbs, ek)
+        lines2.append("TOP " + " ".join(K.scm(f) for f in forms))
+    if lines2:
+        _, answers2 = h.run(lines2, timeout=1500)
+        for i, line, ans in zip(suspects[:40], lines2, answers2):
+            out = K.impl_outcome(ans)
+            m = re.match(r"V \((\d+) \. (-?\d+)\)$", out)
+            ok = bool(m) and int(m.group(1)) == N and int(m.group(2)) == 0
+            if not ok or not results[i][3]:
+                results[i] = (N, line, out, False) if not ok else results[i]
+    for i, (n, line, out, ok) in sorted(results.items()):
+        if ok:
+            continue
+        ent = plan[i]
+        sig = "tail:stack-grows:" + ent["key"].split("/")[1] + ":" + ent["key"].split("/")[0].split("+")[0]
+        ctx.violation(sig, input=line[4:], expected="V (%d . 0)  (value, depth at iteration N-1 minus depth at iteration 1... = 0)" % n,
+                      observed=out, siblings=ent["sib"],
+                      replay="echo '%s' | LD_LIBRARY_PATH=%s %s/embed_c03" % (sq(line), d, d))
+        ent["reported"] = True
     for ent in bad_inner:
         if ent.get("reported"):
             continue
         if ent.get("flag_diff"):
-            ctx.broken("correspondence:tail-flag", "recursive call compiled as %s, R7RS 3.5 says %s for %s (no stack growth observed): %s"
-                       % (ent["flag_diff"][1], ent["flag_diff"][0], ent["key"], ent["text"][:300]))
+            ctx.broken("correspondence:tail-flag", "recursive call compiled as %s, R7RS 3.5 says %s for %s siblings %s (no stack growth observed): %s"
+                       % (ent["flag_diff"][1], ent["flag_diff"][0], ent["key"], ent["sib"], ent["text"][:300]))
         else:
             ctx.broken("correspondence:calls", "call sequence of the real bytecode differs from the model generator for %s: real %s model %s"
                        % (ent["text"][:300], ent["model_diff"][0][:300], ent["model_diff"][1][:300]))
     # ------------------------------------------------------------------ deep recursion and stack growth
     maxs = hdr.get("max-stack", 1024000)
-    if hdr.get("max-stack") != 1024000 or hdr.get("init-stack") != 1024:
+    inits = hdr.get("init-stack", 1024)
+    if maxs != 1024000 or inits != 1024:
         ctx.broken("constants", "SEXP_MAX_STACK_SIZE / SEXP_INIT_STACK_SIZE of the tree (%s / %s) differ from coq/C05/Model.v (1024000 / 1024)"
                    % (hdr.get("max-stack"), hdr.get("init-stack")))
-    deep = ["TOP (define (deep n) (if (= n 0) 0 (+ 1 (deep (- n 1)))))"]
-    depths = [1, 1000, 100000, maxs // 8, maxs, 3 * maxs]
-    for k in depths:
-        deep += ["TOP (deep %d)" % k, "TOP (+ 1 2)", "TOP (deep 1000)", "TOP (cons (verif-top) (verif-stack-length))"]
-    _, answers = h.run(deep, timeout=900)
-    outs = [K.impl_outcome(a) for a in answers]
-    for n, k in enumerate(depths):
-        r, after1, after2, shape = outs[1 + 4 * n: 5 + 4 * n]
-        ctx.count(1, key=("deep", k), nontrivial=True)
-        replay = "printf 'TOP (define (deep n) (if (= n 0) 0 (+ 1 (deep (- n 1)))))\\nTOP (deep %d)\\nTOP (+ 1 2)\\n' | LD_LIBRARY_PATH=%s %s/embed_c03" % (k, d, d)
-        if r not in ("V %d" % k, "E out-of-stack") or (k <= 100000 and r != "V %d" % k) or (k >= maxs and r != "E out-of-stack"):
-            ctx.violation("deep-recursion:outcome", input="(deep %d)" % k, expected="V %d or the out-of-stack error (error iff the frames cannot fit in %d slots)" % (k, maxs),
-                          observed=r, replay=replay)
-        elif after1 != "V 3" or after2 != "V 1000":
-            ctx.violation("deep-recursion:context-unusable", input="(deep %d) then (+ 1 2), (deep 1000)" % k, expected="V 3, V 1000",
-                          observed="%s, %s" % (after1, after2), replay=replay)
-        else:
-            m = re.match(r"V \((\d+) \. (\d+)\)$", shape)
-            if not m or not (int(m.group(1)) < int(m.group(2)) <= maxs):
-                ctx.violation("deep-recursion:stack-shape", input="(deep %d)" % k, expected="top < stack length <= %d" % maxs, observed=shape, replay=replay)
-    ctx.sample(dict(kind="deep", depths=depths, outcomes=[outs[1 + 4 * n] for n in range(len(depths))]))
+    deep_report = deep_recursion(ctx, h, exe, d, maxs, inits, rng)
     # long argument lists applied deep in a recursion: growth by more than doubling (ASan + poisoned free chunks)
     try:
         da = ctx.build("asan")
@@ -292,7 +583,7 @@ def run(ctx):
                           expected="V %d, then V 3" % (dd + kk), observed="%s, %s" % (o[2][:300], o[3][:100]),
                           replay="printf '%%s\\n' '%s' '%s' 'TOP (deepapply %d %d)' | ASAN_OPTIONS=detect_leaks=0 LD_LIBRARY_PATH=%s %s/embed_c03" % (big[0], big[1], dd, kk, da, da))
     # model of the growth arithmetic: the repaired policy always leaves room (spot check of the extracted function)
-    reqs, exp = [], []
+    reqs = []
     for top, n, ln in [(600, 2064, 1024), (1000, 100, 1024), (1023990, 100, 1024000), (10, 5000, 1024), (500000, 600000, 524288)]:
         reqs.append("ensure 1 %d %d %d" % (top, n, ln))
     mo = ctx.run_model(exe, reqs)
@@ -304,17 +595,129 @@ def run(ctx):
                 ctx.broken("model:ensure_stack", "extracted ensure_stack contradicts its theorem on %s: %s" % (q, a))
         elif top + n < maxs:
             ctx.broken("model:ensure_stack", "extracted ensure_stack gives OOS although the request fits: %s" % q)
-    dist = {}
-    for cs, callee in cases:
+    dist, fams = {}, {}
+    for cs, sbs, callee, ek, fam in cases:
         dist[callee] = dist.get(callee, 0) + 1
-    ctx.cov["generator_distribution"] = dict(loop_programs=len(cases), by_callee=dist, tail_contexts=len(tails),
-                                             non_tail_controls=len(CONTEXTS) - len(tails), iterations_big=N, programs_with_big_N=nbig,
-                                             deep_depths=depths, deepapply_grid=len(grid))
+        fams[fam] = fams.get(fam, 0) + 1
+    ctx.cov["generator_distribution"] = dict(loop_programs=len(cases), by_callee=dist, by_family=fams, tail_contexts=len(tails),
+                                             siblings=len(SIBLINGS), non_tail_controls=len(CONTEXTS) - len(tails),
+                                             random_typed_programs=nrand, forms_compared_with_model=nmodel,
+                                             forms_outside_model=nunsupported, iterations_big=N,
+                                             programs_with_big_N=len([m for m in meta if m[1] == N]), iterations_small=NS,
+                                             deep=deep_report, deepapply_grid=len(grid))
     ctx.sample(dict(kind="loop", program=texts[0], outcome=plan[0]["out"]))
-    ctx.sample(dict(kind="loop", program=lines[0][:400], outcome=K.impl_outcome(answers[0]) if answers else None))
-    ctx.assume("chain_step's 'quiet' steps (fp and frame header unchanged by instructions other than calls/returns) are a stated premise of tail_loop_bounded, validated only by the depth probe")
+    ctx.sample(dict(kind="loop", program=lines[0][:400], outcome=results.get(0, (0, "", None, 0))[2]))
+    k = [i for i in range(nloops) if cases[i][4] == "spine"]
+    if k:
+        ctx.sample(dict(kind="spine", program=texts[k[0]][:600], outcome=plan[k[0]]["out"], siblings=plan[k[0]]["sib"]))
+    ctx.assume("chain_step's 'quiet' steps (fp and frame header unchanged by instructions other than calls/returns) are a premise of tail_loop_bounded; proved per opcode of the model VM under 'the operand stack stays above the frame header' (see notes), validated by the depth probe")
     ctx.assume("C recursion inside analyze / equal? / write on deep data is outside this check")
-    ctx.trust("harness/embed_c03.c (verif-top = sexp_context_top published by the VM before a foreign call), props/C05.py context table (which surface contexts are tail contexts, from R7RS 3.5)")
+    ctx.trust("harness/embed_c03.c (verif-top = sexp_context_top published by the VM before a foreign call; verif-stack-length; DEPTH = sexp_bytecode_max_depth), props/C05.py context table (which surface contexts are tail contexts, from R7RS 3.5)")
+
+
+DEEP_FAMILIES = [
+    # name, definition (probe of the top in the innermost frame), call with depth %d, arguments pushed per call
+    ("deep", "(define (deep n) (if (= n 0) (begin (set! t0 (verif-top)) 0) (+ 1 (deep (- n 1)))))", "(deep %d)", 1),
+    ("deep3", "(define (deep3 n a b) (if (= n 0) (begin (set! t0 (verif-top)) 0) (+ 1 (deep3 (- n 1) b a))))", "(deep3 %d 1 2)", 3),
+    ("deeprest", "(define (deeprest n . r) (if (= n 0) (begin (set! t0 (verif-top)) 0) (+ (car r) (deeprest (- n 1) 1 2))))", "(deeprest %d 1 2)", 3),
+]
+
+
+def deep_recursion(ctx, h, exe, d, maxs, inits, rng):
+    """non-tail recursion: the real outcome and final stack length at depths sampled over the whole range against the
+    extracted model (deep_outcome = one ensure_stack per pending call).  Every TOP request is evaluated by sexp_eval,
+    i.e. in a fresh context with a fresh stack of SEXP_INIT_STACK_SIZE slots."""
+    SLACK = 1024
+    report = {}
+    for fi, (name, defn, callfmt, npush) in enumerate(DEEP_FAMILIES):
+        pre = ["TOP (define t0 0)", "TOP " + defn]
+        cal = ["DEPTH " + name] + ["TOP (let ((r %s)) (cons t0 (verif-stack-length)))" % (callfmt % k) for k in (0, 1, 2)]
+        _, ans = h.run(pre + cal, timeout=120)
+        outs = [K.impl_outcome(a) for a in ans[2:]]
+        m0 = re.match(r"V \((\d+) (\d+) (\d+)\)$", outs[0])
+        tops = [re.match(r"V \((\d+) \. (\d+)\)$", o) for o in outs[1:]]
+        if not m0 or not all(tops):
+            ctx.broken("deep-recursion:calibration", "no probe values for %s: %s" % (name, outs))
+            continue
+        n = int(m0.group(1)) + 64                    # vm.c:1409 sexp_ensure_stack(max_depth(callee)+64)
+        t = [int(x.group(1)) for x in tops]
+        per = t[1] - t[0]
+        c0 = t[0] + npush + 1                        # top at the stack check: arguments and operator pushed
+        if per <= 0 or t[2] - t[1] != per or per > n:
+            ctx.broken("deep-recursion:calibration", "frame size of %s not constant / not in (0, n]: tops %s, n %d" % (name, t, n))
+            continue
+
+        def k_for(limit):
+            """smallest depth whose deepest stack check reaches `limit`: c0 + (k-1)*per + n >= limit"""
+            return max(1, ceil_div(limit - n - c0, per) + 1)
+        kmax = k_for(maxs)
+        depths = set()
+        L = inits
+        while L < maxs:
+            if fi == 0 or L * 4 > maxs:
+                depths |= {k_for(L) - 1, k_for(L)}
+            L *= 2
+        depths |= {kmax - 2, kmax - 1, kmax, kmax + 1, 2 * kmax, 3 * maxs}
+        khalf = k_for(L // 2)                         # L/2 = the last doubling below the maximum
+        for fr in ((0.1, 0.5, 0.9) if fi == 0 else (0.5,)):
+            depths.add(int(khalf + fr * (kmax - khalf)))
+        if fi == 0:
+            depths |= {1, 1000, 100000, 150000, 200000}
+        nr = (2 if fi == 0 else 1) if not ctx.thorough else 25
+        for _ in range(nr):
+            depths.add(rng.randrange(khalf, kmax))
+            depths.add(rng.randrange(1, kmax + 1000))
+        depths = sorted(k for k in depths if k >= 1)
+        reqs = []
+        for k in depths:
+            reqs += ["TOP (let ((r %s)) (list r t0 (verif-stack-length)))" % (callfmt % k), "TOP (+ 1 2)", "TOP " + callfmt % 1000]
+        _, ans = h.run(pre + reqs, timeout=900)
+        outs = [K.impl_outcome(a) for a in ans[2:]]
+        mo = ctx.run_model(exe, ["deep %d %d %d %d %d" % (k, c0, per, n, inits) for k in depths])
+        hist = {}
+        for j, k in enumerate(depths):
+            r, after1, after2 = outs[3 * j: 3 * j + 3]
+            model = mo[j]
+            ctx.count(1, key=("deep", name, k), nontrivial=True)
+            ctx.cov["traces_validated_against_impl"] += 1
+            replay = "printf '%%s\\n' 'TOP (define t0 0)' 'TOP %s' 'TOP (let ((r %s)) (list r t0 (verif-stack-length)))' 'TOP (+ 1 2)' | LD_LIBRARY_PATH=%s %s/embed_c03" % (defn, callfmt % k, d, d)
+            need = c0 + (k - 1) * per                  # top at the deepest stack check
+            val = (k if name != "deeprest" else k)
+            m = re.match(r"V \((\d+) (\d+) (\d+)\)$", r)
+            exp = ("E out-of-stack" if model == "OOS" else "V (%d %d %s)" % (val, t[0] + k * per, model.split()[-1]))
+            what = "%s  ; %d pending calls of %d slots, deepest stack check at top %d asking for %d more; initial stack %d, maximum %d" % (callfmt % k, k, per, need, n, inits, maxs)
+            hist[model.split()[0]] = hist.get(model.split()[0], 0) + 1
+            if r == "E out-of-stack":
+                if model != "OOS":
+                    if need + n + SLACK < maxs:
+                        ctx.violation("deep-recursion:outcome", input=what, expected=exp + "  (within the configured maximum: must succeed by growing the stack)",
+                                      observed=r, replay=replay)
+                    else:
+                        ctx.broken("correspondence:ensure-stack", "out-of-stack boundary moved by less than %d slots: %s gives %s, model %s" % (SLACK, what, r, model))
+            elif m:
+                if int(m.group(1)) != val:
+                    ctx.violation("deep-recursion:outcome", input=what, expected=exp, observed=r, replay=replay)
+                elif model == "OOS":
+                    if need >= maxs or int(m.group(3)) > maxs:
+                        ctx.violation("deep-recursion:outcome", input=what, expected=exp + "  (beyond the configured maximum)", observed=r, replay=replay)
+                    else:
+                        ctx.broken("correspondence:ensure-stack", "out-of-stack boundary moved: %s gives %s, model %s" % (what, r, model))
+                else:
+                    ln, top = int(m.group(3)), int(m.group(2))
+                    if ln > maxs or ln <= top:
+                        ctx.violation("deep-recursion:stack-shape", input=what, expected="deepest top < stack length <= %d (model: %s)" % (maxs, exp), observed=r, replay=replay)
+                    elif top != t[0] + k * per or ln != int(model.split()[1]):
+                        ctx.broken("correspondence:grow-stack", "stack length / top after %s: real %s, model %s" % (what, r, exp))
+            else:
+                ctx.violation("deep-recursion:outcome", input=what, expected=exp, observed=r, replay=replay)
+                continue
+            if after1 != "V 3" or after2 != "V 1000":
+                ctx.violation("deep-recursion:context-unusable", input="%s then (+ 1 2), %s" % (callfmt % k, callfmt % 1000), expected="V 3, V 1000",
+                              observed="%s, %s" % (after1, after2), replay=replay)
+        report[name] = dict(slots_per_call=per, first_check_top=c0, request=n, depths=len(depths), oos_from_depth=kmax, model_outcomes=hist)
+        if fi == 0:
+            ctx.sample(dict(kind="deep", depths=depths[:12] + depths[-8:], outcomes=[outs[3 * j][:40] for j in list(range(12)) + list(range(len(depths) - 8, len(depths)))]))
+    return report
 
 
 def replay(ctx, j):
@@ -326,7 +729,15 @@ def replay(ctx, j):
         out = (r.stdout + r.stderr)[-1500:]
         exp = str(c.get("expected", "")).split("  ")[0]
         last = [l for l in r.stdout.split("\n") if l.startswith(("V ", "E "))]
-        bad = not last or (exp.startswith("V ") and exp.split(",")[0].strip() not in [x.strip() for x in last])
+        if c.get("sig", "").startswith("tail:call-at-tail-site"):
+            real = [l for l in r.stdout.split("\n") if l.startswith("B ")]
+            try:
+                got = " ".join(calls_string(code_bodies(K.sx_parse(b[2:]), [])) for b in real)
+            except (ValueError, IndexError):
+                got = "?"
+            bad = got not in exp and exp.split(": ")[-1] not in got
+        else:
+            bad = not last or (exp.startswith(("V ", "E ")) and exp.split(",")[0].strip() not in [x.strip() for x in last])
         still += bad
         print("%s\n   expected %s\n   output: %s\n   %s" % (str(c.get("input"))[:400], c.get("expected"), out.strip()[-600:], "STILL FAILS" if bad else "passes now"))
     for u in j.get("no_longer_checks", []):
